@@ -78,3 +78,52 @@ Section Spec.
 
   Definition validates (s : jsch) (j : json) : bool := vld s j [] false.
 End Spec.
+
+(* ------------------------------------------------------------------ *)
+(* the specification: what is kept                                      *)
+
+Section Keep.
+  Variable fmt_float : Z -> str -> str.
+  Variable fmt_time : str -> str.
+  Variable parse_num : Z -> str -> option str.
+  Variable parse_time : str -> option str.
+
+  Definition keep_prim (p : jprim) (j : json) : json :=
+    match p, j with
+    | QInt b, JNum t => match parse_int b t with Some z => JNum (z_to_str z) | None => j end
+    | QNum b, JNum t => match parse_num b t with Some r => JNum (fmt_float b r) | None => j end
+    | QTime, JStr s => match parse_time s with Some r => JStr (fmt_time r) | None => j end
+    | _, _ => j
+    end.
+
+  (* members whose key is not in D *)
+  Definition filt (D : list str) (m : list (str * json)) : list (str * json) :=
+    filter (fun kv => negb (existsb (str_eqb (fst kv)) D)) m.
+
+  (* [keep s j obj embedded], with the conventions of [vld] *)
+  Fixpoint keep (s : jsch) (j : json) (obj : list (str * json)) (embedded : bool) {struct s} : json :=
+    match s with
+    | JPrimS p => keep_prim p j
+    | JNullS s' => match j with JNull => JNull | _ => keep s' j [] false end
+    | JArrS it => match j with JArr l => JArr (map (fun x => keep it x [] false) l) | _ => j end
+    | JObjS ms addl =>
+      let m := if embedded then obj else match j with JObj m => m | _ => [] end in
+      JObj (
+        (fix go (ms : list (mkind * jsch)) : list (str * json) :=
+           match ms with
+           | [] => []
+           | (MField k _, sf) :: r =>
+             (match kv_get m k with Some x => [(k, keep sf x [] false)] | None => [] end) ++ go r
+           | (MEmbed, se) :: r =>
+             (match keep se JNull m true with JObj l => l | _ => [] end) ++ go r
+           end) ms
+        ++
+        (if embedded then [] else
+           match addl with
+           | Some sa => map (fun kv => (fst kv, keep sa (snd kv) [] false))
+                            (filt (declared_keys (JObjS ms addl)) m)
+           | None => []
+           end))
+    end.
+
+End Keep.
